@@ -19,7 +19,7 @@ RULE = ('case = (implementation, input length, threads, chunk size, sort flag, i
         'over controller choices. distinct = distinct realised (impl, n, threads, chunk, sort, raise-set, '
         'finish sequence) tuples measured from f itself; non-trivial = threads>1 and n>=2 (a real pool ran) '
         'or a chunked() case with a non-multiple length')
-REQUIRED = ['parallel_runs', 'exceptions_propagated_stop', 'exceptions_propagated_base', 'exceptions_propagated_single_thread', 'runs_with_exc_outputs', 'runs_with_none_outputs', 'runs_with_dict_outputs', 'orders_out_of_input_order', 'exceptions_propagated', 'chunked_checked',
+REQUIRED = ['parallel_runs', 'input_kind_np', 'input_kind_series', 'input_kind_gen', 'exceptions_propagated_two', 'exceptions_propagated_fnf', 'exceptions_propagated_stop', 'exceptions_propagated_base', 'exceptions_propagated_single_thread', 'runs_with_exc_outputs', 'runs_with_none_outputs', 'runs_with_dict_outputs', 'orders_out_of_input_order', 'exceptions_propagated', 'chunked_checked',
             'unsorted_runs', 'exhaustive_configs']
 ASSUMPTIONS = ['parallel_map is called from the main thread of a process (it needs the thread\'s asyncio event loop)',
                'completion order is dictated by releasing blocked calls of f one at a time; the realised order is '
@@ -46,7 +46,28 @@ class AbortBase(BaseException):
     """not an Exception subclass"""
 
 
-RAISE_TYPES = {'boom': BoomError, 'stop': StopIteration, 'base': AbortBase, 'key': KeyError}
+class TwoArgError(Exception):
+    """application error whose constructor takes two arguments"""
+
+    def __init__(self, item, status):
+        super().__init__(item, status)
+        self.item, self.status = item, status
+
+
+RAISE_TYPES = {'boom': BoomError, 'stop': StopIteration, 'base': AbortBase, 'key': KeyError, 'two': TwoArgError, 'fnf': FileNotFoundError, 'uni': UnicodeDecodeError}
+RAISE_MAKERS = {'two': lambda x: TwoArgError(x, 503), 'fnf': lambda x: FileNotFoundError(2, 'No such file or directory', f'/data/{x}'),
+                'uni': lambda x: UnicodeDecodeError('utf-8', b'\xff' + str(x).encode(), 0, 1, 'invalid start byte')}
+
+
+def same_exception(exc, originals):
+    """the propagated exception is one f raised: the same object, or at least an equal one (type, args, OS error details)"""
+    for o in originals:
+        if exc is o:
+            return True
+        if type(exc) is type(o) and exc.args == o.args and getattr(exc, 'errno', None) == getattr(o, 'errno', None) \
+                and getattr(exc, 'filename', None) == getattr(o, 'filename', None):
+            return True
+    return False
 
 
 def in_chain(exc, typ):
@@ -91,7 +112,8 @@ class Controller:
         self.chunks = chunks         # list of lists (model of chunk layout)
         self.raise_set = raise_set
         self.out = out_of
-        self.raise_type = BoomError
+        self.raise_maker = BoomError
+        self.raised = []
         self.main_done = False
         self.timeout = False
         self.sequential = threads == 1
@@ -99,6 +121,8 @@ class Controller:
 
     # called by workers ------------------------------------------------------------------------
     def f(self, x):
+        if hasattr(x, 'item'):
+            x = x.item()          # elements of numpy / pandas inputs
         ev = threading.Event()
         with self.cond:
             self.calls[x] = self.calls.get(x, 0) + 1
@@ -111,7 +135,9 @@ class Controller:
             del self.inflight[x]
             self.cond.notify_all()
         if x in self.raise_set:
-            raise self.raise_type(x)
+            e = self.raise_maker(x)
+            self.raised.append(e)
+            raise e
         return self.out(x)
 
     # controller thread ------------------------------------------------------------------------
@@ -165,7 +191,7 @@ def run_once(cfg, prefix):
     from taskchain.utils import threading as tthreading
     from taskchain.utils import iter as titer
     n, threads, chunksize = cfg['n'], cfg['threads'], cfg['chunk']
-    xs = list(range(100, 100 + n))
+    xs = list(range(100, 100 + n)) if not cfg.get('base0') else list(range(n))
     raise_set = set(xs[i] for i in cfg.get('raise', []))
     policy = cfg.get('policy', 'prefix')
     rng = random.Random(cfg.get('pseed', 0))
@@ -184,10 +210,16 @@ def run_once(cfg, prefix):
     chunks = model_chunks(xs, cfg['impl'], threads, chunksize)
     ctl = Controller(xs, threads, chunks, chooser, raise_set)
     ctl.out = make_out(cfg.get('out', 'tuple'))
-    ctl.raise_type = RAISE_TYPES[cfg.get('raise_type', 'boom')]
+    ctl.raise_maker = RAISE_MAKERS.get(cfg.get('raise_type', 'boom')) or RAISE_TYPES[cfg.get('raise_type', 'boom')]
     inp = xs if cfg.get('input', 'list') == 'list' else (x for x in xs)
     if cfg.get('input') == 'tuple':
         inp = tuple(xs)
+    elif cfg.get('input') in ('np', 'series', 'index', 'dict', 'range'):
+        # iterables with their own idea of truth / equality
+        import numpy as np
+        import pandas as pd
+        inp = {'np': lambda: np.array(xs, dtype='int64'), 'series': lambda: pd.Series(xs, dtype='int64'), 'index': lambda: pd.Index(xs),
+               'dict': lambda: dict.fromkeys(xs), 'range': lambda: range(xs[0], xs[0] + len(xs)) if xs else range(0)}[cfg['input']]()
     ctl.thread.start()
     exc = None
     result = None
@@ -221,7 +253,7 @@ def run_once(cfg, prefix):
         asyncio.set_event_loop(asyncio.new_event_loop())      # the old loop still holds the never-completing future
     return {'xs': xs, 'result': result, 'exc': exc, 'calls': dict(ctl.calls), 'finish': list(ctl.finish_seq),
             'windows': list(ctl.window_sizes), 'choices': list(ctl.choices), 'timeout': ctl.timeout,
-            'chunks': chunks, 'raise_set': raise_set, 'hung': hung, 'inflight_at_end': len(ctl.inflight)}
+            'chunks': chunks, 'raise_set': raise_set, 'raised': list(ctl.raised), 'hung': hung, 'inflight_at_end': len(ctl.inflight)}
 
 
 def judge(cfg, ob, res: CaseResult):
@@ -241,6 +273,7 @@ def judge(cfg, ob, res: CaseResult):
     if ob['timeout']:
         res.inconclusive.append(f'controller watchdog fired for {cfg}')
         return
+    res.count('input_kind_' + cfg.get('input', 'list'))
     out = make_out(cfg.get('out', 'tuple'))
     expect = [out(x) for x in xs]
     if cfg.get('out', 'tuple') != 'tuple':
@@ -249,7 +282,7 @@ def judge(cfg, ob, res: CaseResult):
         if exc is None:
             res.violate(f'f raised for elements {sorted(ob["raise_set"])} but parallel_map returned {repr(result)[:200]}',
                         witness=wit)
-        elif not in_chain(exc, RAISE_TYPES[cfg.get('raise_type', 'boom')]) or (cfg.get('raise_type', 'boom') in ('boom', 'key', 'base') and not isinstance(exc, RAISE_TYPES[cfg.get('raise_type', 'boom')])):
+        elif not in_chain(exc, RAISE_TYPES[cfg.get('raise_type', 'boom')]) or (cfg.get('raise_type', 'boom') != 'stop' and not same_exception(exc, ob['raised'])):
             # (python's futures cannot carry a StopIteration: it arrives wrapped in a RuntimeError whose cause it is -- accepted; a normal return is not)
             res.violate(f'f raised {RAISE_TYPES[cfg.get("raise_type", "boom")].__name__} but parallel_map raised {type(exc).__name__}: {exc}', witness=wit)
         else:
@@ -408,7 +441,7 @@ def cases(tier, seed):
             for r in range(n):
                 enum_cfgs.append({'impl': impl, 'n': n, 'threads': threads, 'chunk': n, 'raise': [r]})
                 if n == 3:
-                    for rt in ('stop', 'base', 'key'):
+                    for rt in ('stop', 'base', 'key', 'two', 'fnf', 'uni'):
                         enum_cfgs.append({'impl': impl, 'n': n, 'threads': threads, 'chunk': n, 'raise': [r], 'raise_type': rt})
             enum_cfgs.append({'impl': impl, 'n': n, 'threads': threads, 'chunk': 2, 'raise': [0, n - 1]})
     rng.shuffle(enum_cfgs)
@@ -424,6 +457,15 @@ def cases(tier, seed):
                                 'input': rng.choice(['list', 'gen', 'tuple']) if impl != 'starmap' else 'list', 'tqdm': tq, 'raise': [r], 'raise_type': rt})
     for i in range(0, len(seq), 12):
         yield {'kind': 'runs', 'cfgs': seq[i:i + 12]}
+    # 3b. inputs with their own truth value: one falsy element, several elements, none
+    odd = []
+    for impl in ('threading', 'iter'):
+        for kind in ('np', 'series', 'index', 'dict', 'range', 'gen'):
+            for n, threads in ((1, 1), (1, 3), (2, 2), (0, 2), (0, 1), (5, 3)):
+                odd.append({'impl': impl, 'n': n, 'threads': threads, 'chunk': 2, 'sort': True, 'policy': 'reverse', 'pseed': 1, 'input': kind,
+                            'tqdm': False, 'base0': True})
+    for i in range(0, len(odd), 12):
+        yield {'kind': 'runs', 'cfgs': odd[i:i + 12]}
     # 3. random / adversarial orders on larger inputs
     total = 150 if tier == 'quick' else 6000
     batch = []
@@ -437,13 +479,13 @@ def cases(tier, seed):
         n = min(n, 40)
         cfg = {'impl': impl, 'n': n, 'threads': threads, 'chunk': chunk,
                'sort': rng.random() < 0.7, 'policy': rng.choice(['random', 'reverse', 'rotate', 'random']),
-               'pseed': rng.randrange(1 << 30), 'input': rng.choice(['list', 'list', 'gen', 'tuple']),
+               'pseed': rng.randrange(1 << 30), 'input': rng.choice(['list', 'list', 'gen', 'tuple', 'np', 'series', 'index', 'dict', 'range']),
                'tqdm': rng.random() < 0.2, 'out': rng.choice(['tuple', 'tuple', 'exc', 'none', 'dict', 'falsy'])}
         if impl == 'starmap':
             cfg['input'] = 'list'
         if n and rng.random() < 0.2:
             cfg['raise'] = sorted(rng.sample(range(n), rng.choice([1, 1, 2]) if n > 1 else 1))
-            cfg['raise_type'] = rng.choice(['boom', 'boom', 'stop', 'base', 'key'])
+            cfg['raise_type'] = rng.choice(['boom', 'boom', 'stop', 'base', 'key', 'two', 'fnf', 'uni'])
         batch.append(cfg)
         if len(batch) == 10:
             yield {'kind': 'runs', 'cfgs': batch}
